@@ -1940,10 +1940,16 @@ def run(ctx: Ctx, driver: Driver):
     run_micro(ctx, driver)
     # several connection objects alive at once (after the older streams: their random draws stay what they were)
     run_multi(ctx, multi_cases(ctx, ctx.rng))
+    # requests queued on the request slot of a real IpPairing when its session is lost (last: the older streams' draws stay)
+    from harness.c08_queued import run_queued
+    run_queued(ctx)
 
 
 def replay(ctx: Ctx, driver: Driver, case):
     n = len(ctx.violations)
+    if case.get("stream") == "queued-requests":
+        from harness.c08_queued import replay_queued
+        return replay_queued(ctx, case)
     if case.get("stream") in ("micro", "m4-close-probe"):
         from harness.c08_micro import replay_micro
         return replay_micro(ctx, driver, case)
